@@ -52,10 +52,11 @@ impl Gen7 {
             'i' => match r.below(4) { 0 => Value::Int(Some(r.below(40) as i32 - 5)), 1 => Value::BigInt(Some(r.below(100) as i64)), 2 => Value::SmallInt(Some(r.below(80) as i16)), _ => Value::Unsigned(Some(r.below(30) as u32)) },
             'r' => Value::Double(Some(*r.pick(&[0.0, 0.5, 1.5, 2.0, -1.25, 3.0, 10.25]))),
             'b' => Value::Bool(Some(r.chance(1, 2))),
-            'y' => Value::Bytes(Some(Box::new((0..r.below(4)).map(|_| r.next() as u8).collect()))),
+            'y' => Value::Bytes(Some(Box::new((0..r.below(4)).map(|_| if r.chance(1, 2) { *r.pick(&[0u8, 1, 2, 9, 10, 15, 16, 39, 92, 127, 128, 255]) } else { r.next() as u8 }).collect()))),
             _ => Value::String(Some(Box::new(r.pick(&["a", "b", "x", "y", "it's", "img-a", "img%", "e_e", "", "serif", "regular", "B", "q?m", "$1", "back\\slash", "two\nlines", "tab\there", "cr\rlf\n"]).to_string()))),
         })
     }
+    pub fn value7(&mut self, ty: char) -> Val { self.value(ty) }
     fn pick_col(&mut self, rels: &[Rel], want: Option<char>) -> (Ex, char) {
         // no relation in scope (a SELECT without FROM, a VALUES row): a value of the wanted type
         if rels.is_empty() { let ty = want.unwrap_or('i'); return (Ex::Val(self.value(ty)), ty); }
@@ -252,6 +253,8 @@ impl Gen7 {
                 let a = self.alias("o");
                 s.selects.push(SelItem { e, win, alias: Some(a.clone()) }); out.push((a, ty));
             }
+            // a byte-string value among the items: its literal (x'..' / '\x..') must denote the bytes that are bound
+            if self.rng.chance(1, 8) { let a = self.alias("o"); s.selects.push(SelItem { e: Ex::Val(self.value('y')), win: WinSel::None, alias: Some(a.clone()) }); out.push((a, 'y')); }
             if self.named_window && s.window.is_none() && s.selects.iter().any(|x| matches!(x.win, WinSel::Name(_))) { s.window = Some(("w".into(), self.window(&rels))); }
             if self.rng.chance(1, 8) { s.distinct = Some(Distinct::Distinct); }
         }
